@@ -44,8 +44,9 @@ ASSUMPTIONS = ["the requested range coincides with the equal partition (binmin=a
                "a flat check with an all-zero local histogram follows the implementation (0/0) and is not asserted either way",
                "log files are parsed into numeric rows (format-agnostic); values compared within the printed precision; seqlog cadence, elapsed-time output, "
                "number/order of RNG draws inside a move and which move is chosen are not asserted",
-               "when run() returns normally every output must agree completely with the model, whether or not a fault was injected; when it fails after an "
-               "injected fault (OSError / crash) only prefix-consistency of what is on the simulated disk is required",
+               "when run() returns normally every output must agree completely with the model, whether or not a fault was injected (this is what makes "
+               "swallowed write errors, stale files after a restart and retries on the same machine visible); when it fails after an injected fault "
+               "(OSError / crash) nothing is asserted about the disk: the statement is about runs, not about their wreckage",
                "convergence within the step cap is not required (BUDGET); non-termination of the block/cluster moves is BUDGET"]
 PROBES = ["run_with_no_steps", "prelude_on_related_sequence", "step_decided_without_draw", "rerun_on_same_machine", "kappa_above_one_binned_to_top", "stopped_at_f_equal_threshold", "flatcheck_exact_tie", "start_outside_range", "proposal_outside_range_with_u_zero", "u_just_below_P", "u_just_above_P", "accepted_uphill", "rejected_step",
           "flatcheck_flat", "flatcheck_not_flat", "converged", "step_cap_hit", "hook_assisted", "seam_only", "fs_fault_fired", "crash_fired",
@@ -344,6 +345,7 @@ class WLSim(object):
         self.bins_visited = set()
         self.started = False
         self.synced = True
+        self.fired0 = fs.errors_fired
         self.last_flat_info = None
 
     # --- oracles
@@ -626,8 +628,19 @@ class WLSim(object):
 
     def check_disk(self, strict, allow_extra=False):
         """rows on the simulated disk must be a prefix of the model's rows (never wrong data);
-        strict=True (normal return): they must be complete."""
+        strict=True (normal return): they must be complete.  Once an injected I/O error has fired in this
+        run, what an implementation leaves on the disk while it copes with the error (retries, partial
+        rows) is outside the statement: the incremental comparison is suspended, and only a run that still
+        returns normally is held to the complete comparison, from scratch."""
         m = self.model
+        if self.fs.errors_fired > self.fired0 or self.fs.crashed:
+            if not strict:
+                return
+            for name in FILES:
+                self.file_off[name] = 0
+                self.disk_rows[name] = []
+            self._cmp_hlog = 0
+            self._cmp_glog = 0
         for name in ("hlog.txt", "glog.txt"):
             self.read_new_rows(name)
         # hlog: numeric rows = [check#, H local...]; header rows "iter k:"
@@ -779,6 +792,9 @@ class WLSim(object):
             st["flat_info"]["flat"] = self.observed_glog_growth()
             m.apply_flat(st["flat_info"])
             st["flat_applied"] = True
+        if self.fs.errors_fired > self.fired0 or self.fs.crashed or why in ("oserror", "crash"):
+            self.ctx.probe("failed_run_disk_not_asserted")
+            return
         self.check_disk(strict=False)
         self.check_static_files(strict=False)
 
